@@ -3,10 +3,10 @@ from . import race
 from ..runner import Ob
 META = dict(
     functions=['every OpenMP-outlined function (.omp_outlined.*) of ntt_goldilocks.cpp, poseidon_goldilocks.cpp and goldilocks_base_field.cpp compiled with -fopenmp: NTT_iters batch loop, the reversePermutation loops (copy, zero-padding copy, in-place swap, in-place zero-padding swap), NTT block scatter loop, leaf and level loops of the six Merkle builders, parcpy, parSetZero'],
-    bounds={'quick': 'region instances reached by: NTT/INTT n in {4,8} x ncols {1,2} (plus n = 64 for three schedules) x nphase {1,2,3} x nblock {1,2} x dst modes; extendPol (N,N_ext) in {(2,4),(4,8),(4,4)} x ncols {1,2,3} x nphase {1,2,3} x nblock {1,2}; Merkle rows {2,4,8} x cols {0,3,9} x dim {1,2} x batch {none,2}; the iteration pair is symbolic (all pairs of distinct iterations); parcpy/parSetZero: size < 2^60 and thread count fully symbolic',
+    bounds={'quick': 'region instances reached by: NTT/INTT n in {4,8} x ncols {1,2} (plus n = 64 for three schedules) x nphase {1,2,3} x nblock {1,2} x dst modes; extendPol (N,N_ext) in {(2,4),(4,8),(4,4)} x ncols {1,2,3} x nphase {1,2,3} x nblock {1,2}; Merkle rows {2,4,8} x cols {0,3,9} x dim {1,2} x batch {none,2} plus (32,3), (32,9,batch 4), (64,1), (256,1); the iteration pair is symbolic (all pairs of distinct iterations); parcpy/parSetZero: size < 2^60 and thread count fully symbolic',
             'thorough': 'n up to 32, ncols up to 3, Merkle rows up to 16'},
     outside=['shapes above the bound', 'the OpenMP runtime itself and clang\'s outlining (trusted)', 'output equality with the single-thread execution is a consequence of non-interference (Bernstein) and is not re-measured'],
-    stubs=['__kmpc_fork_call: the outlined function is executed for one symbolic iteration (analysis) and then sequentially over the whole space', '__kmpc_for_static_init_*: hands the team member the range [i,i] for a symbolic i within the loop bounds', 'hash_full_result* and scalar add/sub/mul: frame summaries (extents read/written) during the analysis'],
+    stubs=['__kmpc_serialized_parallel / __kmpc_end_serialized_parallel (if clause false): no-ops around the direct call of the outlined function by a team of one', '__kmpc_fork_call: the outlined function is executed for one symbolic iteration (analysis) and then sequentially over the whole space', '__kmpc_for_static_init_*: hands the team member the range [i,i] for a symbolic i within the loop bounds', 'hash_full_result* and scalar add/sub/mul: frame summaries (extents read/written) during the analysis'],
     assumptions=['OpenMP assigns every iteration to exactly one thread and orders nothing inside a region except the barrier at its end; num_threads, schedule(static[,chunk]) and omp_set_num_threads only influence the assignment, which is universally quantified',
                  'objects allocated inside the outlined function (per-iteration VLAs, stack buffers) are private'],
     trusted_base=['Bernstein conditions', 'reading of the OpenMP specification above'])
@@ -42,7 +42,8 @@ def obligations(ctx):
                         if rows == 8 and dim == 2 and cols == 9 and not ctx.thorough: continue
                         obs.append(Ob('tree/%s/r%d/c%d/d%d/%s' % (var, rows, cols, dim, 'plain' if batch is None else 'b%d' % batch), race.ob_tree, (var, rows, cols, dim, batch, (0, 1, 3)[(rows + cols) % 3]), weight=rows * (cols + 1)))
     for var in ('seq', 'avx', 'avx512'):
-        for rows, cols, batch in ((32, 3, None), (32, 9, 4), (64, 1, None)):
+        # 256 rows: levels of 128 and 64 pairs, so that a region guarded by an if clause on the level size (a threshold up to 128) is analysed with a team
+        for rows, cols, batch in ((32, 3, None), (32, 9, 4), (64, 1, None), (256, 1, None)):
             obs.append(Ob('tree/%s/r%d/c%d/d1/%s' % (var, rows, cols, 'plain' if batch is None else 'b%d' % batch), race.ob_tree, (var, rows, cols, 1, batch, 3), weight=rows * (cols + 1)))
     obs.append(Ob('parcpy/chunks', race.ob_parcpy_chunks, ('parcpy',))); obs.append(Ob('parSetZero/chunks', race.ob_parcpy_chunks, ('parSetZero',)))
     return obs
